@@ -19,7 +19,7 @@ FUNCS = [('giscanner/girwriter.py', ['GIRWriter._write_repository', '_write_name
 
 def conditions(tier):
     quick = tier == 'quick'
-    T = 120 if quick else 900
+    T = 200 if quick else 900
     conds = [ch.Cond('h_c16', 'set_order', [('order', 'int')], pre=['0 <= order <= 119'], timeout=T, name='set iteration order',
                      bounds='every set created by giscanner.ast/transformer/maintransformer/girparser/gdumpparser/'
                             'introspectablepass/girwriter iterates in the k-th permutation of its elements, k < 120 '
